@@ -73,7 +73,23 @@ theorem bnEval_sound : ∀ (fuel : Nat) (ρ : TEnv) (e : AST) (v : TVal), bnEval
                   · rename_i x y h1 h2; cases h; exact BN.addInt hn (ih _ _ _ h1) (ih _ _ _ h2)
                   · cases h
                 · cases h
-              · cases h
+              · split at h
+                · rename_i hn
+                  split at h
+                  · rename_i a1 a2
+                    split at h
+                    · rename_i x y h1 h2; cases h; exact BN.mulInt hn (ih _ _ _ h1) (ih _ _ _ h2)
+                    · cases h
+                  · cases h
+                · split at h
+                  · rename_i hn
+                    split at h
+                    · rename_i a1 a2
+                      split at h
+                      · rename_i x y h1 h2; cases h; exact BN.ltInt hn (ih _ _ _ h1) (ih _ _ _ h2)
+                      · cases h
+                    · cases h
+                  · cases h
       · rename_i hl
         have hf : tagOf f = none := by rw [← isLit_eq_tagOf]; exact hl
         split at h
